@@ -25,9 +25,11 @@ twin("write_text_utf8", "Path.write_text with explicit encoding is the same atom
 twin("path_open_utf8", "Path(...).open('w', encoding=...) instead of open()",
      [(J + "cli.py", '''            with open(self.output_file, "w", encoding="utf-8") as f:''',
        '''            with Path(self.output_file).open("w", encoding="utf-8") as f:''')])
-twin("percent_threshold_on_the_left", "cross-multiplied percent threshold with the operands swapped",
-     [(J + "registry.py", "return len(fields_a & fields_b) >= self.percent_fields * len(fields_a | fields_b)",
-       "return self.percent_fields * len(fields_a | fields_b) <= len(fields_a & fields_b)")])
+twin("percent_threshold_on_the_left", "percent threshold with the operands swapped",
+     [(J + "registry.py", "return len(fields_a & fields_b) / len(fields_union) >= self.percent_fields",
+       "return self.percent_fields <= len(fields_a & fields_b) / len(fields_union)")])
+twin("percent_empty_union_by_len", "the empty union is recognised by its length",
+     [(J + "registry.py", "        if not fields_union:\n", "        if len(fields_union) == 0:\n")])
 twin("threshold_operands_swapped", "p <= ratio",
      [(J + "registry.py", "return len(fields_a & fields_b) >= self.number_fields",
        "return self.number_fields <= len(fields_a & fields_b)")])
@@ -136,7 +138,8 @@ twin("regex_fullmatch_form", "non-capturing group kept, anchors \\\\A ... \\\\Z"
 sys.path.insert(0, HERE)
 from twins_extra import EXTRA  # noqa: E402
 from twins_round3 import ROUND3  # noqa: E402
-for _n, _w, _e in EXTRA + ROUND3:
+from twins_round4 import ROUND4  # noqa: E402
+for _n, _w, _e in EXTRA + ROUND3 + ROUND4:
     twin(_n, _w, _e)
 
 
